@@ -34,6 +34,7 @@ impl embedded_io_async::Error for SimErr {
             ErrKind::NotConnected => ErrorKind::NotConnected,
             ErrKind::ConnectionAborted => ErrorKind::ConnectionAborted,
             ErrKind::Other => ErrorKind::Other,
+            ErrKind::WriteZero => ErrorKind::WriteZero,
         }
     }
 }
